@@ -117,6 +117,28 @@ Fixpoint chain (c : cmp_attrs) (l : list (cmpop * bool)) (st : wcb * bool) : sel
       end
   end.
 
+(** the selection alone (no effect on the where-clause builder) *)
+Fixpoint pure_chain (c : cmp_attrs) (l : list (cmpop * bool)) : sel :=
+  match l with
+  | [] => SelNone
+  | (a, ab) :: rest =>
+      match (if ab then c_by (cmp_get c a) else None) with
+      | Some g => SelBy a g
+      | None => match c_key (cmp_get c a) with Some k => SelKey a k | None => pure_chain c rest end
+      end
+  end.
+
+Definition sel_to_expr (s : sel) (t : ty) : cmp_expr :=
+  match s with SelBy a g => CEBy a g | SelKey _ k => CEKey k | SelNone => CEDefault t end.
+
+(** `Eq`: `#[eq]` / `#[ord]` say that the field is customised; WHAT has to be `Eq` is what `==`
+    compares - the most specific of `partial_eq`, `eq`, `partial_ord`, `ord` *)
+Definition eq_override (op : cmpop) (c : cmp_attrs) (s : sel) : sel :=
+  match op with
+  | CEq => match pure_chain c (steps CPartialEq) with SelNone => s | s' => s' end
+  | _ => s
+  end.
+
 (** `build_*_expr`: the comparator of one non-ignored field, whether the field type itself is
     used, and the where-clause state *)
 Definition build_expr (op : cmpop) (f : fentry) (st : wcb * bool)
@@ -124,8 +146,7 @@ Definition build_expr (op : cmpop) (f : fentry) (st : wcb * bool)
   let c := ha_cmp (fe_hattrs f) in
   let '(s, st) := chain c (steps op) st in
   match s with
-  | SelBy src b => Ok (CEBy src b, false, st)
-  | SelKey _ k => Ok (CEKey k, false, st)
+  | SelBy _ _ | SelKey _ _ => Ok (sel_to_expr (eq_override op c s) (f_ty (fe_field f)), false, st)
   | SelNone =>
       match cmp_bad_attr c with
       | Some bad => Err (bad_attr_msg op bad (goods op))
